@@ -363,12 +363,56 @@ func genLoadWarrior(rng *rand.Rand, cfg gmars.SimulatorConfig, forms []gmars.Ins
 }
 
 // genLoad: C09 round trips; every legal form of the dialect appears
+// longLineTexts: the canonical text of w with one very long line put in the middle (a comment, or
+// an instruction line padded with blanks) and with the LAST line, left without a newline, padded
+// to exactly k*4096 bytes — sizes at which a fixed reader buffer fills up
+func longLineTexts(rng *rand.Rand, cfg gmars.SimulatorConfig, w gmars.WarriorData) [][]byte {
+	base := strings.Split(strings.TrimRight(string(printLoad(rng, cfg, w, false)), "\n"), "\n")
+	var out [][]byte
+	for _, size := range []int{4096, 65536, 65537, 70000, 1<<20 + 1} {
+		mid := len(base) / 2
+		var ls []string
+		ls = append(ls, base[:mid]...)
+		if rng.Intn(2) == 0 {
+			ls = append(ls, ";"+strings.Repeat("c", size))
+		} else {
+			ls = append(ls, strings.Repeat(" ", size)+"; padded")
+		}
+		ls = append(ls, base[mid:]...)
+		out = append(out, []byte(strings.Join(ls, "\n")+"\n"))
+	}
+	for _, k := range []int{1, 2, 3} {
+		ls := append([]string(nil), base...)
+		last := ls[len(ls)-1]
+		head := len(strings.Join(ls[:len(ls)-1], "\n")) + 1
+		_ = head
+		if pad := k*4096 - len(last); pad > 0 {
+			ls[len(ls)-1] = last + strings.Repeat(" ", pad)
+		}
+		out = append(out, []byte(strings.Join(ls, "\n"))) // no final newline
+	}
+	return out
+}
+
 func genLoad(out *bufio.Writer, rng *rand.Rand, count int) int {
 	n := 0
 	for _, legacy := range []bool{false, true} {
 		forms := allForms(legacy)
 		next := 0
 		per := count / 2
+		{
+			cfg := textConfig(rng, legacy)
+			w := genLoadWarrior(rng, cfg, forms, &next)
+			for len(w.Code) < 3 {
+				w.Code = append(w.Code, w.Code[0])
+			}
+			w.Start = len(w.Code) - 1
+			for _, text := range longLineTexts(rng, cfg, w) {
+				fmt.Fprintf(out, "L l%d load %s %s %d:%s | %s ## %s\n", n, cfgFields(cfg), hexd(text), w.Start,
+					cellsStr(w.Code), runLoad(cfg, text), runAsm(cfg, text))
+				n++
+			}
+		}
 		for next < len(forms) || per > 0 {
 			cfg := textConfig(rng, legacy)
 			w := genLoadWarrior(rng, cfg, forms, &next)
@@ -508,6 +552,23 @@ func genLoadBad(out *bufio.Writer, rng *rand.Rand, count int) int {
 		}
 		text = corrupt(rng, text)
 		fmt.Fprintf(out, "L q%d loadbad %s %s - | %s\n", n, cfgFields(cfg), hexd(text), runLoad(cfg, text))
+		if n < 2 {
+			// very long lines with good and bad lines after them: whatever follows a long line is
+			// still read (a bad line still makes the read fail, a good one still counts)
+			for len(w.Code) < 3 {
+				w.Code = append(w.Code, w.Code[0])
+			}
+			w.Start = 0
+			for j, t := range longLineTexts(rng, cfg, w) {
+				for v, tail := range []string{"", "XYZ 1, 2\n", ",\n"} {
+					t2 := append(append([]byte(nil), t...), []byte(tail)...)
+					if !legacy && tail == "" {
+						t2 = append(t2, []byte("\n")...)
+					}
+					fmt.Fprintf(out, "L q%d_%d_%d loadbad %s %s - | %s\n", n, j, v, cfgFields(cfg), hexd(t2), runLoad(cfg, t2))
+				}
+			}
+		}
 	}
 	return count
 }
@@ -585,6 +646,34 @@ func genListing(out *bufio.Writer, rng *rand.Rand, count int) int {
 					return
 				}
 				wr, _ := sim.AddWarrior(&w)
+				switch rng.Intn(5) {
+				case 0:
+					// the listing is asked for after a battle and a Reset
+					sim.SpawnWarrior(0, 0)
+					sim.RunCycle()
+					sim.Reset()
+				case 1:
+					// ... or after other simulators (other core sizes, both dialects) were created
+					for k := 0; k < 3; k++ {
+						c2 := cfg
+						c2.CoreSize = gmars.Address(uint64(cfg.CoreSize)/2 + 7 + uint64(rng.Intn(50)))
+						c2.ReadLimit, c2.WriteLimit = c2.CoreSize, c2.CoreSize
+						c2.Length, c2.Distance = 1, 1
+						if k == 2 {
+							if c2.Mode == gmars.ICWS88 {
+								c2.Mode = gmars.ICWS94
+							} else {
+								c2.Mode = gmars.ICWS88
+							}
+						}
+						if s2, err := gmars.NewSimulator(c2); err == nil {
+							d := gmars.WarriorData{Code: []gmars.Instruction{{Op: gmars.DAT, AMode: gmars.IMMEDIATE, BMode: gmars.IMMEDIATE, B: c2.CoreSize - 1}}}
+							if h2, err := s2.AddWarrior(&d); err == nil {
+								_ = h2.LoadCode()
+							}
+						}
+					}
+				}
 				resp = hexd([]byte(wr.LoadCode()))
 			})
 			if f != "" {
